@@ -8,6 +8,7 @@
 (*    order), slack : bytes between section table and SizeOfHeaders, gap : unreferenced bytes   *)
 (*    in front of the section with file rank gappos, trail : bytes after the last section,      *)
 (*    cert : size of an existing certificate table (0 = none),
+    ndirs : NumberOfRvaAndSizes (> 4, so that the Certificate Table entry exists),
     zptr : "zero" | "pos" - whether sections with SizeOfRawData = 0 have PointerToRawData 0 or a file position]                                  *)
 (* All offsets below are file offsets in bytes.                                                *)
 EXTENDS Integers, Sequences, FiniteSets, TLC, SequencesExt, FiniteSetsExt
@@ -22,7 +23,7 @@ vars == <<img, pc, ranges, sum, tbl, pad>>
 
 (* ---- offsets of the PE/COFF structures ---- *)
 Opt(i)      == i.lfanew + 24                       \* optional header: signature(4) + COFF header(20)
-OptSize(i)  == IF i.bits = 32 THEN 224 ELSE 240
+OptSize(i)  == (IF i.bits = 32 THEN 96 ELSE 112) + 8 * i.ndirs     \* NumberOfRvaAndSizes data directories of 8 bytes (16 is usual; 6, 10 occur)
 CkSum(i)    == Opt(i) + 64                         \* CheckSum field, 4 bytes, same offset in PE32 and PE32+
 DD4(i)      == Opt(i) + (IF i.bits = 32 THEN 128 ELSE 144)   \* Certificate Table data-directory entry, 8 bytes
 SecTab(i)   == Opt(i) + OptSize(i)
